@@ -58,8 +58,11 @@ def family_traces(tier):
     try:
         jobs = [("LoopNest", "cfg/LoopNest_quick.cfg", dict(workers=1, timeout=3000)),
                 ("Limits", gen_cfg("cfg/Limits.tmpl", dict(Family="output", MaxOps=4, MaxDepth=2, LSet="LSmall", MSet="MSmall", StrBase=c07.STRBASE, Extra="INVARIANT Emit"), "xo"),
-                 dict(workers=1, timeout=3000))]
-        rs = run_many(jobs, parallel=2)
+                 dict(workers=1, timeout=3000)),
+                ("Limits", gen_cfg("cfg/Limits.tmpl", dict(Family="namespace", MaxOps=4, MaxDepth=2, LSet="LSmall", MSet="MSmall", StrBase=c07.STRBASE, Extra="INVARIANT Emit"), "xn"),
+                 dict(workers=1, timeout=3000)),
+                ("Recursion", gen_cfg("cfg/Recursion.tmpl", dict(Templates='{"t1","t2"}', Depths="{0, 2}", Extra="INVARIANT Emit"), "xr"), dict(workers=1, timeout=3000))]
+        rs = run_many(jobs, parallel=4)
     finally:
         cleanup_gen()
     nests = rs[0].emitted
@@ -72,6 +75,19 @@ def family_traces(tier):
         env = harness.make_env(loop_limit=c["N"], templates=templates)
         rec.label = "LoopNest:" + src[:80]
         harness.run(env, src, data, "sync" if i % 2 else "async")
+    nsl = [c for c in rs[2].emitted]
+    nsl = nsl if len(nsl) <= cap else rnd.sample(nsl, cap)
+    for i, c in enumerate(nsl):
+        src, templates = c07.concretize(c)
+        env = harness.make_env(templates=templates, ns_limit=c["M"] if c["M"] >= 0 else None)
+        rec.label = "Limits-ns:" + src[:80]
+        harness.run(env, src, {}, "sync" if i % 2 else "async")
+    from . import c09
+    for i, c in enumerate(rs[3].emitted):
+        tm = c09.concretize(c["g"])
+        env = harness.make_env(templates=tm, depth_limit=(3, 8, 30)[i % 3])
+        rec.label = "Recursion:" + json.dumps(c["g"])[:80]
+        harness.run(env, "{% include 't1' %}", {}, "sync" if i % 2 else "async")
     for i, c in enumerate(lims):
         src, templates = c07.concretize(c)
         env = harness.make_env(templates=templates, output_limit=c["L"] if c["L"] >= 0 else None, mode=("strict", "warn", "lax")[i % 3])
@@ -103,13 +119,13 @@ def run(tier: str) -> int:
     os.makedirs(os.path.join(ROOT, ".scratch"), exist_ok=True)
     ck = Check(PID, tier)
     ck.cov["rule"] = ("ContextTrace.tla: every recorded render (scope pushes/pops, loops, carried iterations, limit checks, context copies, buffers, writes, "
-                      "error handling, end) replayed through the specification; sources: LoopNest.tla and Limits.tla programs, and the repository's own "
-                      "test-suite under the LIQUID_VERIF-guarded recorder; clauses Balanced, CheckOK, GhostOK, CopyOK, BufOK, WriteOK, ErrorOK")
+                      "assignments with the measured size of the locals, error handling, end) replayed through the specification; sources: LoopNest.tla and Limits.tla programs, and the repository's own "
+                      "test-suite under the LIQUID_VERIF-guarded recorder; clauses Balanced, CheckOK, GhostOK, CopyOK, BufOK, WriteOK, NamespaceOK, CopyNsOK, DepthOK, ErrorOK")
     traces, rs = family_traces(tier)
     instrument.unwrap_all()
     ck.tlc("LoopNest (trace source)", rs[0])
     ck.tlc("Limits (trace source)", rs[1])
-    fam = [{k: t[k] for k in ("N", "L", "mode", "ev")} for t in traces]
+    fam = [{k: t[k] for k in ("N", "L", "M", "D", "mode", "ev")} for t in traces]
     diags = validate(fam, ck, "families")
     for i, t in enumerate(traces):
         ck.case(("family", t["label"], i))
@@ -125,7 +141,7 @@ def run(tier: str) -> int:
     if missing:
         raise MachineryError(f"the instrumented test run does not reproduce the baseline: {len(missing)} tests missing, e.g. {missing[:3]}")
     ck.cov["corpus"] = {"renders_recorded": len(ctraces), "dropped_long_or_interleaved": dropped, "tests_passing_under_instrumentation": len(passed)}
-    cor = [{k: t[k] for k in ("N", "L", "mode", "ev")} for t in ctraces]
+    cor = [{k: t[k] for k in ("N", "L", "M", "D", "mode", "ev")} for t in ctraces]
     if cor:
         diags = validate(cor, ck, "repository test-suite")
         for i, t in enumerate(ctraces):
